@@ -16,7 +16,7 @@ CHECKS = {
              "graph enumerates.",
         design="3/C01",
         note="Trusted: TLC, the adapter's projection (identity map, naive parent walk), legal-edit assumption "
-             "(add/insert receive detached non-ancestor objects). Bounded: 3+2 nodes exhaustively, 5+3 nodes in traces.",
+             "(add/insert receive detached non-ancestor objects). Bounded: 3+2 nodes exhaustively (generic), 5+3 (typed and pins families), 5+3 nodes in traces. Three object families: generic Composite, HexAssembly>HexBlock>Circle, and the same with pin lattices and multi-index locators.",
         technique="TLA+ spec + TLC exhaustive check; edge replay into real Composite objects; TLC trace validation of recorded histories",
     ),
     "C07": dict(
